@@ -14,11 +14,13 @@ package token
 //@   ensures found: isnil(result2) ==> result0 != nil
 //@   ensures missing: !isnil(result2) ==> result0 == nil
 //@ func List
-//@   props C16 C13 C12
+//@   props C16 C13 C12 C11
 //@   requires unlocked: !held(tokens.mu)
 //@   modifies held(tokens.mu), tokens.modTime, tokens.fileSize, tokens.tokens
 //@   ensures unlocked: !held(tokens.mu)
 //@   ensures entries: result2 == nil ==> (forall k int :: 0 <= k && k < len(result0) ==> result0[k] != nil)
+//@   -- C11: a listing for a group contains only that group's own tokens
+//@   ensures own-group: result2 == nil ==> (forall k int :: 0 <= k && k < len(result0) ==> result0[k].Group == group)
 //@ func Update
 //@   props C16 C13 C12
 //@   requires nonnil: token != nil
@@ -271,7 +273,7 @@ package token
 //@ func (*state).list
 //@   safe
 //@   ematch
-//@   props C16 C13 C12
+//@   props C16 C13 C12 C11
 //@   requires nonnil: state != nil
 //@   requires locked: held(state.mu)
 //@   requires table: tablewf(state)
@@ -284,13 +286,17 @@ package token
 //@   ensures step: tablestep(state)
 //@   ensures table: tablewf(state)
 //@   ensures failed-forgets: result2 != nil && !(group != "" && all) ==> isnil(state.tokens)
+//@   -- C11 (token listing reaches only tokens of the member's own group): unless all tokens are asked for, every token listed
+//@   -- is a token of exactly the group named - not of an enclosing group, not a global one
+//@   invariant loop 1 scoped: !all ==> (forall k int :: 0 <= k && k < len(a) ==> a[k].Group == group)
+//@   ensures own-group: result2 == nil && !all ==> (forall k int :: 0 <= k && k < len(result0) ==> result0[k].Group == group)
 //@
 //@ func (*state).list$1
 //@   inline
 //@
 //@ func (*state).List
 //@   safe
-//@   props C16 C13 C12
+//@   props C16 C13 C12 C11
 //@   requires nonnil: state != nil
 //@   requires unlocked: !held(state.mu)
 //@   assume table: tablewf(state)
@@ -298,6 +304,7 @@ package token
 //@   ensures unlocked: !held(state.mu)
 //@   ensures table: tablewf(state)
 //@   ensures entries: result2 == nil ==> (forall k int :: 0 <= k && k < len(result0) ==> result0[k] != nil)
+//@   ensures own-group: result2 == nil ==> (forall k int :: 0 <= k && k < len(result0) ==> result0[k].Group == group)
 //@
 //@ func (*state).rewrite
 //@   safe
